@@ -34,11 +34,27 @@ def _one_case_child(case, trace_path, wfd):
     dur_id = {int(k): v for k, v in (dur.get("id") or {}).items()}
     dur_default = dur.get("default", 0)
     raising = set(case.get("raising") or [])
+    unpicklable = set(case.get("unpicklable") or [])      # a subset of raising; only meaningful with real workers
+    real_pool = min(case["parallel"], len(case["ids"])) > 1
+
+    def fail_code(device_id, exc):
+        try:
+            return int(getattr(exc, "orig_exc_msg", "x"))
+        except ValueError:
+            cls = getattr(getattr(exc, "orig_exc_cls", None), "__name__", "")
+            msg = str(getattr(exc, "orig_exc_msg", ""))
+            if device_id in unpicklable and ("ickl" in cls or "ickl" in msg):
+                return 13 * device_id + 5           # the failure the model expects for this id
+            return -1
 
     def task(i):
         d = dur_id.get(i, dur_default)
         if d:
             time.sleep(d)
+        if i in unpicklable and real_pool:
+            # a result the done queue cannot carry (a builtin container holding a closure): the worker must
+            # report it as the failure of this id - never drop it silently
+            return [7 * i + 3, lambda: 0]
         if i in raising:
             raise ValueError(str(13 * i + 5))
         return 7 * i + 3
@@ -49,12 +65,8 @@ def _one_case_child(case, trace_path, wfd):
 
     def enc(tr):
         if tr.exc is not None:
-            try:
-                v = int(getattr(tr.exc, "orig_exc_msg", "x"))
-            except ValueError:
-                v = -1
-            return [tr.device_id, "fail", v]
-        return [tr.device_id, "ok", tr.result]
+            return [tr.device_id, "fail", fail_code(tr.device_id, tr.exc)]
+        return [tr.device_id, "ok", tr.result if isinstance(tr.result, int) else -2]
 
     out = {"hook": hasattr(par, "_verif_event"), "outcome": "error", "raised_id": None, "delivered": []}
     t0 = time.monotonic()
@@ -64,11 +76,7 @@ def _one_case_child(case, trace_path, wfd):
             success, fail = pool.run(list(case["ids"]), tolerate_fails=case.get("tolerate", True))
             out["delivered"] = [[k, "ok", v] for k, v in success.items()]
             for k, e in fail.items():
-                try:
-                    v = int(getattr(e, "orig_exc_msg", "x"))
-                except ValueError:
-                    v = -1
-                out["delivered"].append([k, "fail", v])
+                out["delivered"].append([k, "fail", fail_code(k, e)])
         else:
             for k, tr in enumerate(pool.irun(list(case["ids"]), case.get("tolerate", True))):
                 out["delivered"].append(enc(tr))
